@@ -94,7 +94,11 @@ def check_keyword(d, spec, role, kw, li, layout, mode, hdr_i, M, uni=False):
         text = (HEADERS[hdr_i] % d) + "\n" + "\n".join(lines) + "\n"
         matcher = None
     case = {"kind": "keyword", "key": key, "text": text}
-    o = observe.parse_observed(text, matcher=matcher)
+    # the third layout of every keyword is read from a file (TokenScanner(path)), the fourth from a TokenScanner object
+    as_file = li == 2 and observe.file_loadable(text)
+    if as_file:
+        M.count("keyword_cases_from_files")
+    o = observe.parse_observed(text, matcher=matcher, as_file=as_file, as_scanner=(li == 3))
     if o.status != "ok":
         M.violation("C05.keyword", {"what": "keyword line not recognised (document rejected)", "dialect": d, "role": role, "keyword": kw,
                                     "errors": o.err_messages()[:2], "crash": o.tb}, case)
